@@ -6,6 +6,8 @@
  *   root | inode <ref> | lsdir <ref> | lspart <ref> <k> | resolve <path> | inum <n>
  *   read <ref> <off> <len> | block <ref> <i> | frag <ref> | stream <ref> <n> | cross <ref>
  *   xattr <idx> | xdesc <idx> <k> | id <i> | mseek <blk> <off> <n>
+ *   rawls <ref> <k> | rawcont <k>   (sqfs_readdir_state_init + sqfs_meta_reader_readdir on ONE cursor object that lives as long as the
+ *                                    reader set: re-initialised after partial listings, continued after other operations)
  * Output: "MISMATCH <line no> <op> long=<status>:<digest> fresh=<status>:<digest>" (exit 3) or "OK <n ops> <n failed ops> <n blocks>".
  */
 #include "config.h"
@@ -37,8 +39,19 @@ typedef struct {
 	sqfs_data_reader_t *data;
 	sqfs_xattr_reader_t *xr;
 	sqfs_meta_reader_t *mr;
+	sqfs_meta_reader_t *dmr;	/* directory table, for the low-level readdir interface */
+	sqfs_readdir_state_t cur;	/* never cleared by the harness: sqfs_readdir_state_init is documented to initialise it */
+	sqfs_u64 cur_ref;
+	long cur_used;
+	int cur_valid;
 	int ok;
 } rset_t;
+
+/* what the long-lived cursor had consumed before the current rawcont: the fresh reader set replays it */
+static int g_is_fresh;
+static sqfs_u64 g_cont_ref;
+static long g_cont_used;
+static int g_cont_valid;
 
 static uint64_t fnv(uint64_t h, const void *p, size_t n)
 {
@@ -58,6 +71,7 @@ static unsigned int g_dir_reader_flags = 0;
 static void rset_close(rset_t *r)
 {
 	sqfs_drop(r->mr);
+	sqfs_drop(r->dmr);
 	sqfs_drop(r->xr);
 	sqfs_drop(r->data);
 	sqfs_drop(r->dr);
@@ -96,6 +110,16 @@ static int rset_open(rset_t *r, const char *path)
 	r->mr = sqfs_meta_reader_create(r->file, r->cmp, r->super.inode_table_start, r->super.directory_table_start);
 	if (r->mr == NULL)
 		goto fail;
+	{
+		sqfs_u64 limit = r->super.id_table_start;
+		if (r->super.fragment_table_start < limit)
+			limit = r->super.fragment_table_start;
+		if (r->super.export_table_start < limit)
+			limit = r->super.export_table_start;
+		r->dmr = sqfs_meta_reader_create(r->file, r->cmp, r->super.directory_table_start, limit);
+		if (r->dmr == NULL)
+			goto fail;
+	}
 	r->ok = 1;
 	return 0;
 fail:
@@ -142,6 +166,87 @@ static res_t do_lsdir(rset_t *r, sqfs_u64 ref, long limit)
 	return mk(0, h);
 }
 
+static int raw_init(rset_t *r, sqfs_u64 ref)
+{
+	sqfs_inode_generic_t *inode = NULL;
+	int ret = sqfs_dir_reader_get_inode(r->dr, ref, &inode);
+
+	r->cur_valid = 0;
+	if (ret)
+		return ret;
+	ret = sqfs_readdir_state_init(&r->cur, &r->super, inode);
+	sqfs_free(inode);
+	if (ret)
+		return ret;
+	r->cur_ref = ref;
+	r->cur_used = 0;
+	r->cur_valid = 1;
+	return 0;
+}
+
+/* reads up to limit entries (all if limit < 0) from the cursor; digest == NULL: discard */
+static int raw_read(rset_t *r, long limit, uint64_t *digest)
+{
+	long n = 0;
+
+	for (;;) {
+		sqfs_dir_node_t *ent = NULL;
+		sqfs_u32 inum = 0;
+		sqfs_u64 iref = 0;
+		int ret;
+
+		if (limit >= 0 && n >= limit)
+			return 0;
+		ret = sqfs_meta_reader_readdir(r->dmr, &r->cur, &ent, &inum, &iref);
+		if (ret != 0) {
+			if (digest)
+				*digest = fnv(*digest, &ret, sizeof(ret));
+			if (ret < 0)
+				r->cur_valid = 0;
+			return ret;
+		}
+		r->cur_used += 1;
+		if (digest) {
+			*digest = fnv(*digest, ent->name, ent->size + 1);
+			*digest = fnv(*digest, &ent->type, sizeof(ent->type));
+			*digest = fnv(*digest, &inum, sizeof(inum));
+			*digest = fnv(*digest, &iref, sizeof(iref));
+		}
+		sqfs_free(ent);
+		if (++n > 100000)
+			return 0;
+	}
+}
+
+static res_t do_raw(rset_t *r, int cont, sqfs_u64 ref, long limit)
+{
+	uint64_t h = H0;
+	int ret;
+
+	if (!cont) {
+		ret = raw_init(r, ref);
+		if (ret)
+			return mk(ret, 1);
+	} else if (!g_is_fresh) {
+		g_cont_valid = r->cur_valid;
+		g_cont_ref = r->cur_ref;
+		g_cont_used = r->cur_used;
+		if (!r->cur_valid)
+			return mk(-1001, 0);
+	} else {
+		if (!g_cont_valid)
+			return mk(-1001, 0);
+		ret = raw_init(r, g_cont_ref);
+		if (ret)
+			return mk(-1002, (uint64_t)ret);
+		ret = raw_read(r, g_cont_used, NULL);
+		if (ret != 0 || r->cur_used != g_cont_used)
+			return mk(-1003, (uint64_t)ret);	/* the long-lived cursor had got further than a fresh one can */
+	}
+	raw_read(r, limit, &h);
+	return mk(0, h);
+}
+
 static res_t do_op(rset_t *r, const char *op, char *args)
 {
 	uint64_t h = H0;
@@ -168,6 +273,13 @@ static res_t do_op(rset_t *r, const char *op, char *args)
 		sqfs_u64 ref = strtoull(args, &e, 0);
 		return do_lsdir(r, ref, strtol(e, NULL, 0));
 	}
+	if (!strcmp(op, "rawls")) {
+		char *e;
+		sqfs_u64 ref = strtoull(args, &e, 0);
+		return do_raw(r, 0, ref, strtol(e, NULL, 0));
+	}
+	if (!strcmp(op, "rawcont"))
+		return do_raw(r, 1, 0, strtol(args, NULL, 0));
 	if (!strcmp(op, "resolve")) {
 		sqfs_inode_generic_t *root = NULL;
 		sqfs_u64 out = 0;
@@ -469,7 +581,9 @@ int main(int argc, char **argv)
 		}
 		{
 			char *copy = strdup(args);
+			g_is_fresh = 1;
 			b = do_op(&F, line, copy);
+			g_is_fresh = 0;
 			free(copy);
 		}
 		rset_close(&F);
